@@ -320,7 +320,7 @@ class Squared2NormOperator(EnergyOperator):
         if x.jac is None:
             return x.vdot(x)
         res = x.val.vdot(x.val)
-        return x.new(res, VdotOperator(2*x.val))
+        return x.new(res, VdotOperator(2*x.val).real)
 
 
 class QuadraticFormOperator(EnergyOperator):
@@ -349,7 +349,7 @@ class QuadraticFormOperator(EnergyOperator):
             return 0.5*x.vdot(self._op(x))
         tmp = self._op(x.val)
         res = 0.5*x.val.vdot(tmp)
-        return x.new(res, VdotOperator(tmp))
+        return x.new(res, VdotOperator(tmp).real)
 
 
 class VariableCovarianceGaussianEnergy(LikelihoodEnergyOperator):
